@@ -77,6 +77,7 @@ func main() {
 		for sc.Scan() {
 			fmt.Fprintln(w, runGuarded(sc.Text()))
 		}
+		stopRest()
 	default:
 		if !extraCommand(os.Args[1:], w) {
 			fmt.Fprintln(os.Stderr, "unknown command", os.Args[1])
